@@ -35,6 +35,7 @@ func runC18(r *Run) {
 	checkFallback(r)
 	checkErrFirst(r)
 	checkEnumIndex(r)
+	checkNilErr(r)
 	checkExitListing(r)
 }
 
@@ -1256,4 +1257,243 @@ func checkEnumIndex(r *Run) {
 			r.Info("C18.index", tname(u.t), "handlers storing a message field of this type", "none")
 		}
 	}
+}
+
+// ---------------------------------------------------------------------------------------------
+// C18.nilerr: an error value that may be nil is not handed to a function that dereferences it unconditionally.
+
+type nilReqKey struct {
+	fn *ssa.Function
+	i  int
+}
+
+var nilReqMemo = map[nilReqKey]int{}
+
+// requiresNonNilErr: fn calls a method on its error parameter i (or passes it on to a function that does) on a path that
+// has not established parameter != nil.
+func requiresNonNilErr(p *Program, fn *ssa.Function, i int, depth int) bool {
+	k := nilReqKey{fn, i}
+	if v, ok := nilReqMemo[k]; ok {
+		return v == 1
+	}
+	nilReqMemo[k] = 0
+	if fn.Blocks == nil || i >= len(fn.Params) || depth > 3 || !isErrorType(fn.Params[i].Type()) {
+		return false
+	}
+	par := fn.Params[i]
+	nonNil := condEdges(fn, func(cond ssa.Value, _ *ssa.If) int {
+		return -nilCond(cond, func(y ssa.Value) bool { return y == ssa.Value(par) })
+	})
+	live := reachWithout(fn, nonNil)
+	var mayBeNilParam func(v ssa.Value, at *ssa.BasicBlock, d int) bool
+	mayBeNilParam = func(v ssa.Value, at *ssa.BasicBlock, d int) bool {
+		if d > 4 {
+			return false
+		}
+		if v == ssa.Value(par) {
+			return live[at]
+		}
+		if phi, ok := v.(*ssa.Phi); ok {
+			for j, e := range phi.Edges {
+				pred := phi.Block().Preds[j]
+				// the value arrives over an edge on which the parameter is known to be non-nil
+				guarded := false
+				for _, ed := range nonNil {
+					if ed.From == pred && ed.To() == phi.Block() && len(pred.Succs) == 2 && pred.Succs[0] != pred.Succs[1] {
+						guarded = true
+					}
+				}
+				if guarded && e == ssa.Value(par) {
+					continue
+				}
+				if mayBeNilParam(e, pred, d+1) {
+					return true
+				}
+			}
+		}
+		return false
+	}
+	res := false
+	allInstrs(fn, func(ins ssa.Instruction) {
+		c, ok := ins.(ssa.CallInstruction)
+		if !ok || res {
+			return
+		}
+		cc := c.Common()
+		if cc.IsInvoke() && mayBeNilParam(cc.Value, ins.Block(), 0) {
+			res = true
+			return
+		}
+		if sc := cc.StaticCallee(); sc != nil && inRepo(sc) {
+			for j, a := range cc.Args {
+				if isErrorType(a.Type()) && mayBeNilParam(a, ins.Block(), 0) && requiresNonNilErr(p, sc, j, depth+1) {
+					res = true
+				}
+			}
+		}
+	})
+	if res {
+		nilReqMemo[k] = 1
+	}
+	return res
+}
+
+func checkNilErr(r *Run) {
+	p := r.P
+	roots := p.Roots()
+	reach := map[*ssa.Function]bool{}
+	for _, rn := range []string{"check", "deliver"} {
+		rs, _ := p.Reach(roots[rn])
+		for f := range rs {
+			reach[f] = true
+		}
+	}
+	nReq, nSites := 0, 0
+	seenReq := map[nilReqKey]bool{}
+	for _, fn := range sortedFns(reach) {
+		if fn.Blocks == nil || !inRepo(fn) {
+			continue
+		}
+		fn := fn
+		allInstrs(fn, func(ins ssa.Instruction) {
+			c, ok := ins.(ssa.CallInstruction)
+			if !ok {
+				return
+			}
+			sc := c.Common().StaticCallee()
+			if sc == nil || !inRepo(sc) {
+				return
+			}
+			for j, a := range c.Common().Args {
+				if !isErrorType(a.Type()) || !requiresNonNilErr(p, sc, j, 0) {
+					continue
+				}
+				if !seenReq[nilReqKey{sc, j}] {
+					seenReq[nilReqKey{sc, j}] = true
+					nReq++
+				}
+				// the function's own parameter handed on: the requirement moves to its callers (requiresNonNilErr is transitive)
+				if par, isPar := a.(*ssa.Parameter); isPar && par.Parent() == fn {
+					continue
+				}
+				nSites++
+				okv := !errMayBeNilAt(p, a, ins.Block(), 0)
+				r.Check(okv, "C18.nilerr", fname(fn), "the error handed to "+fname(sc)+" is known to be non-nil", "constructed, or the call is reachable only on its != nil edge",
+					fname(sc)+" calls a method on its error argument without testing it, and this call site can pass a nil error (a refusal that carries no Go error): nil dereference in CheckTx/DeliverTx, the panic handler closes the application", p.ipos(ins))
+			}
+		})
+	}
+	r.Info("C18.nilerr", "summary", "functions that dereference an error parameter unconditionally", itoa(int64(nReq))+" functions, "+itoa(int64(nSites))+" call sites on the transaction paths")
+}
+
+// okFalseImpliesErr: for a callee returning (bool, error): whenever the bool is false the error is non-nil.
+var okImpliesMemo = map[*ssa.Function]int{}
+
+func okFalseImpliesErr(p *Program, fn *ssa.Function, depth int) bool {
+	if v, ok := okImpliesMemo[fn]; ok {
+		return v == 1
+	}
+	okImpliesMemo[fn] = 0
+	if fn.Blocks == nil || depth > 4 || fn.Signature.Results().Len() != 2 {
+		return false
+	}
+	good := true
+	n := 0
+	for _, ret := range returnsOf(fn) {
+		n++
+		b, e := ret.Results[0], ret.Results[1]
+		if k, isK := boolConst(b); isK {
+			if !k && !errNonNilAt(e, ret.Block()) {
+				good = false
+			}
+			continue
+		}
+		// (res, err) handed on from one call whose own results satisfy the relation
+		eb, ok1 := b.(*ssa.Extract)
+		if !ok1 || eb.Index != 0 {
+			good = false
+			continue
+		}
+		c, isCall := eb.Tuple.(*ssa.Call)
+		if !isCall {
+			good = false
+			continue
+		}
+		if ee, ok2 := e.(*ssa.Extract); !ok2 || ee.Tuple != eb.Tuple {
+			// the error may have been tested already: `if err != nil { return false, wrap(err) }; return res, err`
+			if !isNilConst(e) && !(ok2 && ee.Tuple == eb.Tuple) {
+				good = false
+				continue
+			}
+		}
+		callees := p.calleesOf(c)
+		if len(callees) == 0 {
+			good = false
+		}
+		for _, cal := range callees {
+			if !okFalseImpliesErr(p, cal, depth+1) {
+				good = false
+			}
+		}
+	}
+	if good && n > 0 {
+		okImpliesMemo[fn] = 1
+	}
+	return good && n > 0
+}
+
+// errMayBeNilAt: can the error value v be nil when block `at` executes?
+func errMayBeNilAt(p *Program, v ssa.Value, at *ssa.BasicBlock, depth int) bool {
+	if depth > 4 {
+		return true
+	}
+	if isNilConst(v) {
+		return true
+	}
+	if errNonNilAt(v, at) {
+		return false
+	}
+	fn := at.Parent()
+	switch x := v.(type) {
+	case *ssa.Phi:
+		for j, e := range x.Edges {
+			pred := x.Block().Preds[j]
+			// over an edge on which e != nil was established, e is not nil
+			guards := condEdges(fn, func(cond ssa.Value, _ *ssa.If) int { return -nilCond(cond, func(y ssa.Value) bool { return y == e }) })
+			skip := false
+			for _, g := range guards {
+				if g.From == pred && g.To() == x.Block() && len(pred.Succs) == 2 && pred.Succs[0] != pred.Succs[1] {
+					skip = true
+				}
+			}
+			if skip {
+				continue
+			}
+			if errMayBeNilAt(p, e, pred, depth+1) {
+				return true
+			}
+		}
+		return false
+	case *ssa.Extract:
+		// err of (ok, err) := f(...): on the paths where ok is false the error is non-nil when f promises so
+		c, isCall := x.Tuple.(*ssa.Call)
+		if !isCall || x.Index != 1 {
+			return true
+		}
+		callees := p.calleesOf(c)
+		if len(callees) == 0 {
+			return true
+		}
+		for _, cal := range callees {
+			if !okFalseImpliesErr(p, cal, 0) {
+				return true
+			}
+		}
+		edges := condEdges(fn, func(cond ssa.Value, _ *ssa.If) int { return -nilCond(cond, func(y ssa.Value) bool { return y == v }) })
+		edges = append(edges, condEdges(fn, func(cond ssa.Value, _ *ssa.If) int {
+			return -boolCond(cond, func(y ssa.Value) bool { e, ok := y.(*ssa.Extract); return ok && e.Tuple == x.Tuple && e.Index == 0 })
+		})...)
+		return reachWithout(fn, edges)[at]
+	}
+	return true
 }
